@@ -260,6 +260,9 @@ class Printer:
             return
         if o is not None and o is not DUP:
             text = o
+        if self.coin(0.04) and key.replace("_", "").isalnum():
+            # a known field under another spelling of the same key (TOML: bare, literal-quoted and basic-quoted keys are the same key)
+            key = self.rng.choice(["'%s'" % key, '"%s"' % key, '"%s"' % key.replace("_", "\\u005f", 1), '"\\u%04x%s"' % (ord(key[0]), key[1:])])
         line = "%s = %s" % (key, text)
         self.lines.append(line)
         if o is DUP:
@@ -549,7 +552,10 @@ def invalidations(d, rng):
                 k = r.choice(m["analog"][ai]["map"])[0]
                 levels.append(("mapping", mi, "analog", ai, "map", k))
     for lv in levels:
-        line = r.choice(["bogus = 1", "colour = \"red\"", "nam = \"x\"", "channel_offset_neg = 1", "typ = \"cc\"", "velocity2 = 3"])
+        line = r.choice(["bogus = 1", "colour = \"red\"", "nam = \"x\"", "channel_offset_neg = 1", "typ = \"cc\"", "velocity2 = 3",
+                         # the same in every spelling TOML has for a key: literal-quoted, basic-quoted, with escape sequences, empty, dotted
+                         "'bogus' = 1", "\"bogus\" = 1", "\"note\\tbook\" = 1", "\"colou\\u0072\" = 1", "\"b\\\\s\" = 1", "\"\\U0001F3B9\" = 1",
+                         "\"\" = 1", "'' = 1", "bogus.sub = 1", "\"bo gus\".\"s\\tb\" = 1", "\"\\u0062ogus\" = {a = 1}", "\"q\\\"uote\" = 1"])
         nm = "unknown-field@" + "/".join(str(x) if not isinstance(x, bytes) else "axis" for x in lv if not isinstance(x, int))
         out.append((nm or "unknown-field@top", None, None, {lv: [line]}))
     return out
